@@ -42,6 +42,7 @@ class State:
         self.files = {}         # path -> (start position, line_fn): symbolic text files that open(path) may read
         self.qfacts = []        # quantified facts produced by library contracts (max/min/argsort …), instantiated by contracts
         self.array_facts = []   # (function symbol name, fn(args)->z3 Bool): facts about input arrays, instantiated per application
+        self.named = set()      # array cells that were ever bound to a name / attribute / container / parameter (not mere temporaries)
 
     def fork(self):
         s = State.__new__(State)
@@ -60,6 +61,7 @@ class State:
         s.inverses = self.inverses
         s.files = self.files
         s.qfacts = self.qfacts
+        s.named = set(getattr(self, "named", ()))
         return s
 
     # heap
